@@ -26,7 +26,7 @@ _SLEEP = [0]
 _ORIG_INIT = md._maze_gen_init_worker
 _ORIG_HELPER = md._generate_maze_helper
 _MAIN_PID = os.getpid()
-CALL_TIMEOUT_S = int(os.environ.get("VERIF_CALL_TIMEOUT", "240"))
+CALL_TIMEOUT_S = int(os.environ.get("VERIF_CALL_TIMEOUT", "75"))
 
 
 class _CallTimeout(BaseException):
